@@ -158,6 +158,43 @@ def k_rules(p: Project, rep: Report):
         b = _bind(c, [a.arg for a in rfn0.args.args[1:]]) if rfn0 is not None else {k.arg: k.value for k in c.keywords}
         if "dtprofup" in b:
             held_exprs.append((n, b["dtprofup"]))
+    def fresher_than_held(q, facts):
+        """do the facts establish `nothing is held, or the server's date is not older than the held one`?
+        True / False / None (too many conditions)"""
+        held_none = False
+        held_names: Set[str] = set()
+        for hn, he in held_exprs:
+            hi = q.index_of(hn.id)
+            if hi is None:
+                continue
+            hv = value_on_path(q, cfg, he, upto=hi)
+            if isinstance(hv, ast.Constant) and hv.value is None:
+                held_none = True
+            held_names.add(text(he))
+        if held_none:
+            return True
+        items = []
+        for cw in facts:
+            for a, e in _atom_exprs(cw[0]):
+                if isinstance(e, ast.Compare) and isinstance(e.ops[0], ast.Lt):
+                    l, r_ = e.left, e.comparators[0]
+                    lo, ro = origins(q, cfg, l, cw.pos, params), origins(q, cfg, r_, cw.pos, params)
+                    l_net, r_net = NET in lo, NET in ro
+                    l_held = from_cache(lo) or text(l) in held_names
+                    r_held = from_cache(ro) or text(r_) in held_names
+                    if l_net and r_held and not r_net:
+                        items.append(atom(a, False))  # not (server < held)
+                        items.append(atom(f"{text(r_)} is None", True))
+                    elif r_net and l_held and not l_net:
+                        items.append(atom(a, True))  # held < server
+                        items.append(atom(f"{text(l)} is None", True))
+        for h in sorted(held_names):
+            if h.isidentifier():
+                items.append(atom(f"{h} is None", True))
+        if not items:
+            return False
+        return implies(facts, any_of(*items))
+
     for n, c in targets:
         lab = text(c.func)
         verdict = {"parsed": True, "converted": True, "status-checked": True, "not-older-than-cache": True, "not-on-dryrun": True}
@@ -234,46 +271,11 @@ def k_rules(p: Project, rep: Report):
                 elif r is None:
                     undec.add("status check: too many conditions")
             # not older than what is held
-            held_none = False
-            held_names: Set[str] = set()
-            for hn, he in held_exprs:
-                hi = q.index_of(hn.id)
-                if hi is None:
-                    continue
-                hv = value_on_path(q, cfg, he, upto=hi)
-                if isinstance(hv, ast.Constant) and hv.value is None:
-                    held_none = True
-                held_names.add(text(he))
-            if not held_none:
-                items = []
-                seen_cmp = False
-                for cw in facts:
-                    for a, e in _atom_exprs(cw[0]):
-                        if isinstance(e, ast.Compare) and isinstance(e.ops[0], ast.Lt):
-                            l, r_ = e.left, e.comparators[0]
-                            lo, ro = origins(q, cfg, l, cw.pos, params), origins(q, cfg, r_, cw.pos, params)
-                            l_net, r_net = NET in lo, NET in ro
-                            l_held = from_cache(lo) or text(l) in held_names
-                            r_held = from_cache(ro) or text(r_) in held_names
-                            if l_net and r_held and not r_net:
-                                seen_cmp = True
-                                items.append(atom(a, False))  # not (server < held)
-                                items.append(atom(f"{text(r_)} is None", True))
-                            elif r_net and l_held and not l_net:
-                                seen_cmp = True
-                                items.append(atom(a, True))  # held < server
-                                items.append(atom(f"{text(l)} is None", True))
-                for h in sorted(held_names):
-                    if h.isidentifier():
-                        items.append(atom(f"{h} is None", True))
-                if not items:
-                    verdict["not-older-than-cache"] = False
-                else:
-                    r = implies(facts, any_of(*items))
-                    if r is False:
-                        verdict["not-older-than-cache"] = False
-                    elif r is None:
-                        undec.add("date check: too many conditions")
+            fr = fresher_than_held(q, facts)
+            if fr is False:
+                verdict["not-older-than-cache"] = False
+            elif fr is None:
+                undec.add("date check: too many conditions")
             # dry run
             if "dryrun" in params:
                 r = implies(facts, atom("bool(dryrun)", False))
@@ -342,6 +344,22 @@ def k_rules(p: Project, rep: Report):
                         if from_cache(src) or NET not in src:
                             fresh_ok = False
                             fresh_bad = f"returns a value derived from {sorted(s_ for s_ in src if not s_.startswith(('const:', 'fn:')))}"
+    # ... and what the server sent is handed back only if it is not older than what is held
+    older = None
+    nret = 0
+    for q in paths:
+        if q.outcome != "return" or q.value is None:
+            continue
+        src = origins(q, cfg, q.value, len(q.nodes) - 1, params)
+        if NET not in src or from_cache(src):
+            continue
+        if "dryrun" in params and implies(q.conds, atom("bool(dryrun)", False)) is False:
+            continue  # a dry run hands back the request it would have sent; nothing came from the server
+        nret += 1
+        if fresher_than_held(q, q.conds) is False:
+            older = simple_conds(q.conds)
+    if nret and held_exprs:
+        rep.check("K-R1", "request_profile:older-profile-not-returned", older is None, f"a path hands the server's response back although nothing on it establishes that the server's DTPROFUP is not older than the held one (taken when {dict(list(older.items())[:4]) if older else ''}): a server that answers with a superseded profile gets it passed on as the current one" if older is not None else "", loc(p, fn))
     if fresh_seen:
         rep.check("K-R1", "request_profile:fresh-profile-returned", fresh_ok, "" if fresh_ok else f"when the server sends a new profile (status 0) the call still hands back the copy it had read from the cache ({fresh_bad}): the caller routes its next request by the superseded profile", loc(p, fn))
     if ret_seen:
